@@ -92,6 +92,24 @@ def attach_connection(alias):
     conn._rollback = _rollback
 
 
+def wrap_run_sql():
+    """Flag statements issued by SQLExecutor.run_sql(execute=True)."""
+    from django_evolution.utils import sql as sqlmod
+    orig = sqlmod.SQLExecutor.run_sql
+    if getattr(orig, '_vcheck', False):
+        return
+
+    def run_sql(self, sql, capture=False, execute=False):
+        prev = INRUN['on']
+        INRUN['on'] = bool(execute)
+        try:
+            return orig(self, sql, capture=capture, execute=execute)
+        finally:
+            INRUN['on'] = prev
+    run_sql._vcheck = True
+    sqlmod.SQLExecutor.run_sql = run_sql
+
+
 SIGNALS = ('evolving', 'evolved', 'evolving_failed', 'applying_evolution',
            'applied_evolution', 'applying_migration', 'applied_migration',
            'creating_models', 'created_models')
@@ -290,6 +308,7 @@ def main():
     for alias in settings.DATABASES:
         attach_connection(alias)
     attach_signals()
+    wrap_run_sql()
     action = os.environ['PL_ACTION']
     args = json.loads(os.environ.get('PL_ARGS') or '{}')
     if action == 'fault_loop':
